@@ -45,7 +45,8 @@ ASSUMPTIONS = [
 REQUIRED = ["op_get_subtree", "op_node_subtree", "op_to_subtree", "op_cut_enter", "op_cut_leave",
             "op_cut_type", "op_cut_order", "op_cut_tip", "op_neurites", "op_dendrites",
             "transform_instance_reused", "numpy_scalar_node_ids", "removals_as_iterator_or_set",
-            "mappings_checked", "mapping_container_reused", "transform_reused_after_aborted_call", "tip_exact_threshold_cases", "exhaustive_subsets",
+            "mappings_checked", "mapping_container_reused", "transform_reused_after_aborted_call",
+            "zero_length_tip_branches_at_threshold_zero", "trees_derived_by_the_library_from_a_used_tree", "tip_exact_threshold_cases", "exhaustive_subsets",
             "tap_to_sub_topology", "tap_propagate_removal", "tap_get_subtree_impl"]
 FLOOR = {"quick": 2500, "thorough": 300000}
 SHARDS = {"quick": 8, "thorough": 16}
@@ -345,7 +346,10 @@ def _op_cut_tip(ctx, case, spec, tree):
     thre = case["thre"]
     cands = tip_branches(spec)
     exact = case["tree"].get("geom") == "axis"
-    if not exact and any(abs(L - thre) <= 1e-4 * (1 + L) for L, _ in cands):
+    # (a branch of length exactly 0 -- repeated points -- is exactly 0 in any arithmetic: the
+    # threshold 0 against it is decided, like the exact integer layouts)
+    if not exact and any(abs(L - thre) <= 1e-4 * (1 + L) and not (L == 0.0 and thre == 0.0)
+                         for L, _ in cands):
         ctx.skip("tip-branch length within float32 rounding of the threshold")
         return
     reported = []
@@ -380,6 +384,8 @@ def _op_cut_tip(ctx, case, spec, tree):
     ctx.count("op_cut_tip")
     if exact and any(L == thre for L, _ in cands):
         ctx.count("tip_exact_threshold_cases")
+    if thre == 0.0 and any(L == 0.0 for L, _ in cands):
+        ctx.count("zero_length_tip_branches_at_threshold_zero")
     cut = [chain for L, chain in cands if L <= thre]
     gone = set()
     for chain in cut:
@@ -444,6 +450,10 @@ OPS = {
 def execute(ctx, case):
     spec = G.spec_from_recipe(case["tree"])
     tree = G.build(spec, frozen_ok=True)
+    if case.get("derived"):
+        # the operation is applied to a tree the library itself derived (sorted, re-rooted, grown
+        # by a merged node) from a tree that had been in use; the oracle reads that tree's columns
+        tree, spec = G.derive(tree, spec, int(case["derived"]))
     try:
         with warnings.catch_warnings():
             warnings.simplefilter("ignore")
@@ -485,6 +495,8 @@ def _workload(ctx):
             case = {"tree": rc, **case}
             if case["op"] in ("cut_type", "cut_order", "cut_tip") and rng.random() < 0.5:
                 case["reuse"] = int(rng.integers(0, 2**31 - 1))
+            if rng.random() < 0.2:
+                case["derived"] = int(rng.integers(1, 2**31 - 1))
             ctx.case(case, nontrivial=n >= 3, klass=f"{case['op']}/{rc['shape']}")
             execute(ctx, case)
 
